@@ -272,7 +272,7 @@ class Runner:
                     if st.get('stepType') == 'assignment':
                         lhs = st.get('lhs', '')
                         m = re.match(r'^vf_in(\w+)$', lhs)
-                        if m and m.group(1) not in inputs:
+                        if m:
                             v = st.get('value', {})
                             d = v.get('data')
                             if d is not None:
@@ -315,7 +315,7 @@ def native_replay(prop, u, inputs, scratch):
         p = subprocess.run(cmd, stdout=subprocess.PIPE, stderr=subprocess.STDOUT)
         if p.returncode != 0:
             return dict(outcome='build-failed', output=p.stdout.decode('utf-8', 'replace')[-3000:])
-    args = [exe, u.enforce] + ['%s=%d' % (k, v) for k, v in sorted(inputs.items())]
+    args = [exe, u.name] + ['%s=%d' % (k, v) for k, v in sorted(inputs.items())]
     try:
         p = subprocess.run(args, stdout=subprocess.PIPE, stderr=subprocess.STDOUT, timeout=120)
     except subprocess.TimeoutExpired:
